@@ -72,4 +72,9 @@ let h_emit req =
   | PanicNoSegment -> Obj [ ("result", Str "panic_no_segment") ]
   | PanicMacroStack -> Obj [ ("result", Str "panic_macro_stack") ]
 
-let () = main_loop [ ("listing", h_listing); ("queries", h_queries); ("emit", h_emit) ]
+(* the Known_ class of the .lst name collision finding, evaluated by the Coq predicate: paths = [[dir, stem], ...] *)
+let h_lstnames req =
+  let paths = List.map (fun j -> match to_list j with [ d; s ] -> (to_n d, to_n s) | _ -> (to_n Null, to_n Null)) (to_list (field req "paths")) in
+  Obj [ ("collision", Bool (known_listing_name_collision paths)) ]
+
+let () = main_loop [ ("listing", h_listing); ("queries", h_queries); ("emit", h_emit); ("lstnames", h_lstnames) ]
